@@ -480,8 +480,8 @@ class Tensor:
         return F.slice(self, key)
     
     def __iter__(self):
-        self._current_idx = 0
-        return self
+        # independent iterator per loop (nested/simultaneous iterations over one tensor)
+        return (self[i] for i in range(len(self)))
     
     def __next__(self) -> 'Tensor':
         if self._current_idx >= len(self):
